@@ -73,6 +73,47 @@ private def srcObserve (cfg : Cfg) (e : BitVec 64) : List String :=
     ++ (match Src.PageTableEntry_frame cfg e with
         | .ok (.ok f) => [toString f.toNat] | .ok (.error _) => ["n"] | .panic => ["panic"])
 
+/-- C12: the erased `Entry<F>` of the translator: (pointer_low, (cs, bits), pointer_middle, pointer_high, reserved). -/
+private abbrev SEntry := BitVec 16 × (BitVec 16 × BitVec 16) × BitVec 16 × BitVec 32 × BitVec 32
+
+/-- the two little-endian words of the `repr(C)` image of an entry (field offsets 0, 2, 4, 6, 8, 12) -/
+private def sEntryWords (e : SEntry) : List String :=
+  let lo := e.1.toNat + e.2.1.1.toNat * 2^16 + e.2.1.2.toNat * 2^32 + e.2.2.1.toNat * 2^48
+  let hi := e.2.2.2.1.toNat + e.2.2.2.2.toNat * 2^32
+  [toString lo, toString hi]
+
+/-- C12: an entry history `(kind, arg)*` on the generated definitions. `set_handler_addr` itself reads `CS` and is
+not translated: its three pointer assignments are transcribed here, its option part is the generated
+`minimal` / `set_code_selector` / `set_present`. A panicking call prints `p` and leaves the entry as it was. -/
+private def srcIdtEntry (cfg : Cfg) (cs : Nat) (e : SEntry) : List Nat → Option (List String)
+  | [] => some (["a"] ++ sVal (Src.Entry_handler_addr cfg e))
+  | k :: a :: rest =>
+    let opts (r : R ((BitVec 16 × BitVec 16) × (BitVec 16 × BitVec 16))) : R SEntry :=
+      match r with
+      | .ok (_, o) => .ok (e.1, o, e.2.2)
+      | .panic => .panic
+    let r : Option (R SEntry) :=
+      match k with
+      | 0 =>
+        let addr := b64 a
+        let o := R.bind (Src.EntryOptions_minimal cfg) fun o0 =>
+          R.bind (Src.EntryOptions_set_code_selector cfg o0 (b16 cs)) fun o1 =>
+          Src.EntryOptions_set_present cfg o1.2 true
+        some (match o with
+          | .ok (_, o) => .ok (addr.setWidth 16, o, (addr >>> 16).setWidth 16, (addr >>> 32).setWidth 32, e.2.2.2.2)
+          | .panic => .panic)
+      | 1 => some (opts (Src.EntryOptions_set_present cfg e.2.1 (a != 0)))
+      | 2 => some (opts (Src.EntryOptions_disable_interrupts cfg e.2.1 (a != 0)))
+      | 3 => some (opts (Src.EntryOptions_set_privilege_level cfg e.2.1 (b8 (a % 4))))
+      | 4 => some (opts (Src.EntryOptions_set_stack_index cfg e.2.1 (b16 a)))
+      | 5 => some (opts (Src.EntryOptions_set_code_selector cfg e.2.1 (b16 a)))
+      | _ => none
+    match r with
+    | none => none
+    | some (.ok e') => (srcIdtEntry cfg cs e' rest).map (fun t => ["s"] ++ sEntryWords e' ++ t)
+    | some .panic => (srcIdtEntry cfg cs e rest).map (fun t => ["p"] ++ sEntryWords e ++ t)
+  | _ => none
+
 /-- C08: a history of setter calls `(kind, a, f)*` (0 set_addr, 1 set_frame, 2 set_flags, 3 set_unused) on the
 generated definitions; a panicking call prints `p` and leaves the entry as it was. -/
 private def srcEntrySeq (cfg : Cfg) (e : BitVec 64) : List Nat → Option (List String)
@@ -203,6 +244,20 @@ def srcOut (cfg : Cfg) (op : String) (a : Array Nat) : Option (List String) :=
     | .ok r4 =>
       some ([toString r4.1.toNat, toString r4.2.toNat] ++ sR (Src.PageRange_size cfg (b64 size2M) r)
         ++ sR (Src.PageRange_size cfg (b64 size4K) r4))
+  -- C12: entry histories through the generated option setters
+  | "idt_entry", cs :: _n :: rest =>
+    match Src.Entry_missing cfg with
+    | .ok e => srcIdtEntry cfg cs e rest
+    | .panic => some ["panic"]
+  -- C19: PCIDs, selector error codes, DR7 values
+  | "pcid_new", [v] => if v < 65536 then some (sRes (Src.Pcid_new cfg (b16 v))) else none
+  | "sec_new", [v] => some (sOpt (Src.SelectorErrorCode_new cfg (b64 v)))
+  | "dr7_from_bits", [b] => some (sOpt (Src.Dr7Value_from_bits cfg (b64 b)))
+  | "dr7_truncate", [b] => some (sVal (Src.Dr7Value_from_bits_truncate cfg (b64 b)))
+  | "dr7_flags", [b] => some (sVal (Src.Dr7Value_flags cfg (b64 b)))
+  | "dr7_insert", [b, f] => some (sVal ((Src.Dr7Value_insert_flags cfg (b64 b) (b64 f)).map (·.2)))
+  | "dr7_remove", [b, f] => some (sVal ((Src.Dr7Value_remove_flags cfg (b64 b) (b64 f)).map (·.2)))
+  | "dr7_toggle", [b, f] => some (sVal ((Src.Dr7Value_toggle_flags cfg (b64 b) (b64 f)).map (·.2)))
   | _, _ => none
 
 end X86.Driver
